@@ -150,7 +150,7 @@ func (c *c15) genCase(o *OracleEnv, rng *mon.Rand, ts int64) c15Case {
 		return r
 	}
 	kinds := []string{"honest-all", "subset-at-quorum", "subset-below", "duplicated-vote", "two-votes-one-validator", "forged-signature", "signature-by-other", "wrong-chain-id", "wrong-height", "wrong-round",
-		"unknown-validators", "non-commit-flags-with-extension", "non-commit-flags-no-extension", "missing-pairs", "undecodable-prices", "empty-extensions", "garbage-bytes", "height-below-host-set", "not-an-executor", "missing-signature", "oversized-price", "forged-override"}
+		"unknown-validators", "non-commit-flags-with-extension", "non-commit-flags-no-extension", "missing-pairs", "undecodable-prices", "empty-extensions", "garbage-bytes", "height-below-host-set", "not-an-executor", "missing-signature", "oversized-price", "forged-override", "forged-after-quorum"}
 	cs.kind = mon.Pick(rng, kinds)
 	switch cs.kind {
 	case "honest-all":
@@ -252,6 +252,23 @@ func (c *c15) genCase(o *OracleEnv, rng *mon.Rand, ts int64) c15Case {
 		cs.specs = commitVotes(below, prices)
 		for _, i := range rest(below) {
 			cs.specs = append(cs.specs, voteSpec{Val: i, Flag: cmtproto.BlockIDFlagCommit, Prices: map[string]*big.Int{}, Sig: sigValid})
+		}
+	case "forged-after-quorum":
+		// a validly signed quorum comes first, but it does not quote BTC/USD; the remaining validators' entries carry
+		// forged signatures and do quote it
+		noBTC := map[string]*big.Int{}
+		for k, v := range prices {
+			if k != "BTC/USD" {
+				noBTC[k] = v
+			}
+		}
+		cs.specs = commitVotes(above, noBTC)
+		for _, i := range rest(above) {
+			cs.specs = append(cs.specs, voteSpec{Val: i, Flag: cmtproto.BlockIDFlagCommit, Prices: prices, Sig: mon.Pick(rng, []sigKind{sigForged, sigWrongChain, sigMissing})})
+		}
+		// one more forged entry for a validator that already signed, quoting BTC/USD
+		if len(above) > 0 {
+			cs.specs = append(cs.specs, voteSpec{Val: above[0], Flag: cmtproto.BlockIDFlagCommit, Prices: prices, Sig: sigForged})
 		}
 	case "forged-override":
 		// a genuine signed quorum, followed by unsigned entries for the same validators (non-commit flags) carrying
@@ -374,6 +391,9 @@ func checkC15(run *mon.Run, rng *mon.Rand, thorough bool) {
 		names = append(names, n)
 	}
 	sort.Strings(names)
+	for _, vn := range names {
+		c.scriptedLateRelay(vn, c15PowerVectors[vn])
+	}
 	rounds := pick(thorough, 8, 60)
 	perRound := pick(thorough, 60, 150)
 	for r := 0; r < rounds && !run.TooMany(); r++ {
@@ -429,6 +449,40 @@ func checkC15(run *mon.Run, rng *mon.Rand, thorough bool) {
 		}
 	}
 	run.Extra["power_vectors"] = names
+}
+
+// scriptedLateRelay: (1) a full update at t1; (2) an update at t3 in which one pair lacks quorum and keeps t1;
+// (3) a late relay of an older, validly signed, complete commit at t2 with t1 < t2 < t3. No pair may go backwards.
+func (c *c15) scriptedLateRelay(vn string, powers []int64) {
+	o := newOracleEnv(powers, c15Pairs)
+	var log []string
+	t1, t2, t3 := int64(1_700_000_000_000_001_000), int64(1_700_000_000_000_002_000), int64(1_700_000_000_000_003_000)
+	h := uint64(o.HostHeight) + 1
+	c.deliver(o, c15Case{kind: "honest-all", specs: o.HonestSpecs(pricesAt(1_000_000, t1)), height: h, sender: o.Executors[0]}, vn, true, &log)
+	// only a minority quotes each pair in turn at t3
+	for _, starve := range c15Pairs {
+		below, _ := subsetBelow(o, mon.NewRand(uint64(len(starve))))
+		var specs []voteSpec
+		for i := range o.Host {
+			p := map[string]*big.Int{}
+			for k, v := range pricesAt(3_000_000, t3) {
+				p[k] = v
+			}
+			inBelow := false
+			for _, b := range below {
+				inBelow = inBelow || b == i
+			}
+			if !inBelow {
+				delete(p, starve)
+			}
+			specs = append(specs, voteSpec{Val: i, Flag: cmtproto.BlockIDFlagCommit, Prices: p, Sig: sigValid})
+		}
+		br := o.Branch()
+		blog := append([]string(nil), log...)
+		c.deliver(br, c15Case{kind: "missing-pairs", specs: specs, height: h, sender: o.Executors[0]}, vn, true, &blog)
+		c.deliver(br, c15Case{kind: "late-relay-of-older-commit", specs: br.HonestSpecs(pricesAt(2_000_000, t2)), height: h, sender: o.Executors[1]}, vn, true, &blog)
+		c.run.Distinct("scripted-late-relay/" + vn + "/" + starve)
+	}
 }
 
 func (c *c15) hostRefresh(o *OracleEnv, rng *mon.Rand, log *[]string) {
